@@ -58,6 +58,8 @@ pub struct Stats {
     pub max_choice_points: usize,
     pub closed: bool,
     pub capped: bool,
+    /// one-step look-ahead transitions executed from arrivals at an already known key (see Search::dup_lookahead)
+    pub lookahead_steps: u64,
     pub layer_sizes: Vec<u64>,
 }
 
@@ -79,6 +81,12 @@ pub struct Search<'m, M: Model> {
     /// already guaranteed by breadth-first order; a buggy implementation may have an unbounded
     /// state space, so searching on is pointless)
     pub stop_on_violation: bool,
+    /// The visited set merges arrivals with equal keys and explores only from the first one: sound as long as
+    /// the key determines the future. An implementation that keeps state the key does not contain (a cache, a
+    /// reused scratch buffer) breaks that silently. With this flag every arrival at an already known key still
+    /// executes every enabled operation once (all-zero choice policy) under the step oracle, without enqueuing
+    /// the results: effects of unseen state that surface one operation later are caught wherever they arise.
+    pub dup_lookahead: bool,
 }
 
 struct Succ<S> {
@@ -92,7 +100,7 @@ struct Succ<S> {
 
 impl<'m, M: Model> Search<'m, M> {
     pub fn new(model: &'m M) -> Self {
-        Self { model, threads: 16, max_states: u64::MAX, max_depth: u32::MAX, max_violations: 8, stop_on_violation: true }
+        Self { model, threads: 16, max_states: u64::MAX, max_depth: u32::MAX, max_violations: 8, stop_on_violation: true, dup_lookahead: false }
     }
 
     /// Run to closure (or cap). Calls `on_state(state, depth)` for every distinct state in
@@ -127,7 +135,9 @@ impl<'m, M: Model> Search<'m, M> {
             }
             // expand the frontier in parallel, chunk by chunk (keeps memory bounded)
             let chunk = ((frontier.len() + self.threads - 1) / self.threads).max(1);
-            let results: Vec<(Vec<Succ<M::State>>, Vec<(u32, usize, usize, Vec<u32>, Violation)>, u64, u64, usize, HashMap<u32, u64>)> =
+            let seen_ref = &seen;
+            let lookahead = self.dup_lookahead && std::env::var("VERIF_NO_LOOKAHEAD").is_err();
+            let results: Vec<(Vec<Succ<M::State>>, Vec<(u32, usize, usize, Vec<u32>, Violation, Option<(usize, Vec<u32>)>)>, u64, u64, usize, HashMap<u32, u64>, u64)> =
                 std::thread::scope(|sc| {
                     let handles: Vec<_> = frontier
                         .chunks(chunk)
@@ -142,6 +152,7 @@ impl<'m, M: Model> Search<'m, M> {
                                 let mut runs = 0u64;
                                 let mut maxcp = 0usize;
                                 let mut kinds: HashMap<u32, u64> = HashMap::new();
+                                let mut la_steps = 0u64;
                                 let mut local_seen: std::collections::HashSet<Vec<u8>> = Default::default();
                                 for (id, s) in part {
                                     let ops = model.ops(s);
@@ -161,7 +172,8 @@ impl<'m, M: Model> Search<'m, M> {
                                                         Ok(kind) => {
                                                             *kinds.entry(kind).or_insert(0) += 1;
                                                             let key = model.key(&t);
-                                                            if local_seen.insert(key.clone()) {
+                                                            let known = seen_ref.contains_key(&key);
+                                                            if !known && local_seen.insert(key.clone()) {
                                                                 succs.push(Succ {
                                                                     parent: *id,
                                                                     op_index: oi as u32,
@@ -170,11 +182,25 @@ impl<'m, M: Model> Search<'m, M> {
                                                                     key,
                                                                     state: t,
                                                                 });
+                                                            } else if lookahead && viols.len() < 64 {
+                                                                // arrival at a known key: one more step of every operation under the oracle
+                                                                let ops2 = model.ops(&t);
+                                                                for (oi2, op2) in ops2.iter().enumerate() {
+                                                                    la_steps += 1;
+                                                                    let mut u = t.clone();
+                                                                    chooser::begin_with(&[], chooser::Tail::Zero, 0);
+                                                                    let r2 = crate::panics::watch(|| model.step(&mut u, op2));
+                                                                    let tr2 = chooser::end();
+                                                                    if let Err(v) = r2 {
+                                                                        viols.push((*id, oi, ei, trace.iter().map(|d| d.pick).collect(), v, Some((oi2, tr2.iter().map(|d| d.pick).collect()))));
+                                                                        break;
+                                                                    }
+                                                                }
                                                             }
                                                         }
                                                         Err(v) => {
                                                             if viols.len() < 64 {
-                                                                viols.push((*id, oi, ei, trace.iter().map(|d| d.pick).collect(), v));
+                                                                viols.push((*id, oi, ei, trace.iter().map(|d| d.pick).collect(), v, None));
                                                             }
                                                         }
                                                     }
@@ -186,21 +212,22 @@ impl<'m, M: Model> Search<'m, M> {
                                         }
                                     }
                                 }
-                                (succs, viols, transitions, runs, maxcp, kinds)
+                                (succs, viols, transitions, runs, maxcp, kinds, la_steps)
                             })
                         })
                         .collect();
                     handles.into_iter().map(|h| h.join().expect("worker panicked")).collect()
                 });
             let mut next: Vec<(u32, M::State)> = vec![];
-            for (succs, viols, tr, runs, maxcp, kinds) in results {
+            for (succs, viols, tr, runs, maxcp, kinds, la) in results {
                 stats.transitions += tr;
+                stats.lookahead_steps += la;
                 stats.choice_runs += runs;
                 stats.max_choice_points = stats.max_choice_points.max(maxcp);
                 for (k, v) in kinds {
                     *stats.outcome_kinds.entry(k).or_insert(0) += v;
                 }
-                for (pid, oi, ei, picks, v) in viols {
+                for (pid, oi, ei, picks, v, second) in viols {
                     let dup = found.iter().any(|f| f.violation.property == v.property && f.violation.signature == v.signature);
                     if !dup && found.len() < self.max_violations {
                         let mut trace = self.trace_to(&nodes, pid, &frontier);
@@ -210,6 +237,9 @@ impl<'m, M: Model> Search<'m, M> {
                             format!("{:?}", self.model.ops(ps)[oi])
                         };
                         trace.push(TraceStep { op, op_index: oi, picks, opts_index: ei });
+                        if let Some((oi2, picks2)) = second {
+                            trace.push(TraceStep { op: format!("#{}", oi2), op_index: oi2, picks: picks2, opts_index: 0 });
+                        }
                         found.push(Found { violation: v, trace });
                     }
                 }
